@@ -598,6 +598,11 @@ var hostOps = []hostOp{
 	{"FlattenProperties", func(h vocab.Item) { _ = vocab.FlattenProperties(h) }},
 	{"Flatten", func(h vocab.Item) { _ = vocab.Flatten(h) }},
 	{"NotEmpty/IsNil", func(h vocab.Item) { _, _ = vocab.NotEmpty(h), vocab.IsNil(h) }},
+	{"CollectionPath.IRI/Of", func(h vocab.Item) {
+		for _, cp := range []vocab.CollectionPath{vocab.Inbox, vocab.Outbox, vocab.Followers, vocab.Following, vocab.Liked, vocab.Likes, vocab.Shares, vocab.Replies} {
+			_, _ = cp.IRI(h), cp.Of(h)
+		}
+	}},
 	{"fmt %v", func(h vocab.Item) { _ = fmt.Sprintf("%v %s", h, h) }},
 	{"DerefItem", func(h vocab.Item) { _ = vocab.DerefItem(h) }},
 	{"OnObject", func(h vocab.Item) { _ = vocab.OnObject(h, func(*vocab.Object) error { return nil }) }},
